@@ -303,7 +303,13 @@ func (s *storage) nextPack() error {
 	if err := s.openForWrite(n); err != nil {
 		return err
 	}
-	return s.openForRead(n)
+	if err := s.openForRead(n); err != nil {
+		// Don't keep a writer without its read handle: s.fds would be
+		// one short and new blobs indexed under the wrong pack number.
+		s.closePack()
+		return err
+	}
+	return nil
 }
 
 // openAllPacks opens read-only each pack file in s.root, populating s.fds.
@@ -666,6 +672,13 @@ func (s *storage) append(br blob.SizedRef, r io.Reader) (err error) {
 	defer s.mu.Unlock()
 	if s.closed {
 		return errors.New("diskpacked: write to closed storage")
+	}
+
+	if s.writer == nil {
+		// A previous roll-over to the next pack file failed; try again.
+		if err := s.nextPack(); err != nil {
+			return err
+		}
 	}
 
 	// to be able to undo the append
